@@ -62,7 +62,8 @@ def nest(t):
 WIDTH_KINDS = ["stmt", "decl", "fhead", "proto", "global", "define", "include", "ctrl", "comment_line",
                "comment_eol_global", "comment_block", "block_first", "block_interior", "block_last",
                "block_interior_tab", "stmt_string_tail", "stmt_string_tab", "comment_line_tab", "define_string_tab",
-               "global_string", "stmt_digraph", "stmt_trigraph", "global_digraph", "ctrl_trigraph"]
+               "global_string", "stmt_digraph", "stmt_trigraph", "global_digraph", "ctrl_trigraph",
+               "define_spliced_second", "define_spliced_first", "stmt_spliced_second"]
 
 
 def width_case(kind, n, t, pos, final_nl, r):
@@ -74,6 +75,8 @@ def width_case(kind, n, t, pos, final_nl, r):
     top = []      # file-level lines before the function
     line = None
     where = "top"
+    also = []
+    off = 0
     tabs = "\t" * t
     if kind == "stmt":
         if t < 1:
@@ -124,6 +127,30 @@ def width_case(kind, n, t, pos, final_nl, r):
         if t:
             return None
         line = pad_to('static char\tg_s<::> = "', r.choice("stuv"), '";', n)
+    elif kind in ("define_spliced_second", "define_spliced_first"):
+        # one instruction over two physical lines joined by a line splice: each line is measured on its own, also
+        # when the other one is too long as well
+        if t:
+            return None
+        longl = '#define MSG "' + "q" * 72 + '" \\' if kind.endswith("second") else '\t"' + "q" * 82 + '"'
+        meas = pad_to('\t"', "m", '"', n) if kind.endswith("second") else pad_to('#define MSG "', "m", '" \\', n)
+        if meas is None:
+            return None
+        if kind.endswith("first") and pos == "last" and not final_nl:
+            return None     # the neighbour line would be the file's last line without a newline (known finding F-13)
+        line = (longl + "\n" + meas) if kind.endswith("second") else (meas + "\n" + longl)
+        also = [0] if kind.endswith("second") else [1]
+        off = 1 if kind.endswith("second") else 0
+    elif kind == "stmt_spliced_second":
+        if t < 1:
+            return None
+        meas = pad_to(tabs + '\t"', "m", '");', n)
+        if meas is None:
+            return None
+        line = tabs + 'ft_g("' + "q" * 80 + '", \\\n' + meas
+        also = [0]
+        off = 1
+        where = "body"
     elif kind == "decl":
         if t != 1:
             return None
@@ -206,7 +233,7 @@ def width_case(kind, n, t, pos, final_nl, r):
             lines = [line, ""] + body_pre + decl + stmts + tail
             hdr = HDR
             m = len(HDR.split("\n")) - 1 + 1
-        if kind.startswith("block"):
+        if kind.startswith("block") or "spliced" in kind:
             m += off
     else:
         if pos != "middle":
@@ -227,10 +254,15 @@ def width_case(kind, n, t, pos, final_nl, r):
             op, cl = nest(t)
             lines = body_pre + decl + op + [line, tabs + "\tb = a;"] + cl + tail
             m = base + len(body_pre) + len(decl) + len(op) + 1
+    if where != "top" and "spliced" in kind:
+        m += off
     src = hdr + "\n".join(lines) + ("\n" if final_nl else "")
     got = src.split("\n")[m - 1]
     assert vis_width(got) == n, (kind, n, t, pos, got, vis_width(got))
-    return name, src, m
+    also_abs = [m - off + a for a in also]
+    for a in also_abs:
+        assert vis_width(src.split("\n")[a - 1]) > 80
+    return name, src, m, also_abs
 
 
 def width_cases(r, reps):
@@ -241,7 +273,12 @@ def width_cases(r, reps):
                     for final_nl in ((True, False) if pos == "last" else (True,)):
                         c = width_case(kind, n, t, pos, final_nl, r)
                         if c is not None:
-                            yield ("width", kind, n, {"tabs": t, "pos": pos, "final_nl": final_nl}) + c
+                            ctx = {"tabs": t, "pos": pos, "final_nl": final_nl}
+                            if c[3]:
+                                ctx["also_long"] = c[3]
+                            if kind == "define_spliced_first":
+                                ctx["ends_in_splice"] = True
+                            yield ("width", kind, n, ctx) + c[:3]
 
 
 # ------------------------------------------------------------------ counts
@@ -444,7 +481,12 @@ def judge(sh, limit, kind, n, ctx, name, src, where):
     lines = [d[2] for d in got]
     if limit == "width":
         here = [x for x in lines if x == where]
-        others = [x for x in lines if x != where]
+        also = ctx.get("also_long", [])
+        others = [x for x in lines if x != where and x not in also]
+        for a in also:
+            if a not in lines:
+                detail["unreported_long_line"] = a
+                sh.violation("boundary", (limit, kind, "neighbour_line"), case, detail)
         if others:
             detail["other_lines"] = others
             sh.violation("spurious", (limit, kind), case, detail)
